@@ -10,7 +10,7 @@ CONSTANTS
   Orders <- OrdersQuick
   SeqPaths = {"msgp"}
   MapPaths = {"map"}
-  PTypings = {"absent", "str", "empty"}
+  PTypings = {"absent", "str"}
   STypings = {"absent", "log", "trace"}
   Faithful = TRUE
 CHECK_DEADLOCK FALSE
